@@ -815,3 +815,13 @@ Theorem C10_index_ids_no_collision :
     node_ids (mol_to_graph m false ui) = atom_ids ui 0 (fst m).
 Proof. exact index_ids_no_collision. Qed.
 Print Assumptions C10_index_ids_no_collision.
+
+(** ... and for ANY node list (a subset of the atoms, a single reactive atom as the reactor does, a staged expansion, duplicates, ids
+    that are not atoms): h_to_implicit (h_to_explicit g nodes) hands RDKit the same molecule as g. *)
+Theorem C10_h_roundtrip_molecule_nodes :
+  forall (g : gr) (nodes : option (list N)), gwfb g = true -> no_H g = true -> no_tgh g = true ->
+    (forall u v x, adj g u v = Some x -> u <> v /\ match e_ord x with Some (OP _ _) => False | _ => True end) ->
+    exists atoms b1 b2, graph_to_mol (h_to_implicit (h_to_explicit g nodes false)) = Some (atoms, b1) /\
+                        graph_to_mol g = Some (atoms, b2) /\ forall i j, bond_find i j b1 = bond_find i j b2.
+Proof. exact h_roundtrip_molecule_nodes. Qed.
+Print Assumptions C10_h_roundtrip_molecule_nodes.
